@@ -510,8 +510,8 @@ pub fn prop() -> Prop {
         describe,
         rule: "trees from three sources: valid generated games; valid games + 1-2 violation operators (empty chance, bad weight {0,-1,NaN,+-inf,-0}, shared chance label with other weights/order/1e-9 perturbation, empty player, renamed/reordered/dropped/duplicated action at one node, relabel to another infoset, forgotten own action, absent-mindedness, non-finite payoff, single- and multi-action nodes under one name, single infoset with differing action) at stream-chosen nodes for either player; raw label soup over 2-4 label alphabets. Oracle: an independent contract validator (MustAccept / MustReject(set of rules) / DontCare); accepted trees are additionally zipped against the harness's collapsed tree, evaluated against the C01 oracles and solved for 3 iterations by each method. Non-trivial = rejected with the violation across root branches, for player two, or a recall violation; or accepted with a multi-node infoset; distinct by tree.",
         max_len: 700,
-        cases_quick: 60_000,
-        cases_thorough: 2_000_000,
+        cases_quick: 1_500_000,
+        cases_thorough: 20_000_000,
         assumptions: &[
             "don't-care zones: chance probability vectors differing by 1e-12..1e-6 relative; a single-outcome chance node sharing a label with a multi-outcome one",
             "an error for a non-finite payoff may be any GameError variant outside the seven existing ones",
